@@ -1,6 +1,7 @@
 // ---- spec side of VALUE ----
 /// the cursor went from `old` to where it is now: same text and mode, diagnostics only appended, position advanced over
 /// exactly the text in between
+#[verifier::opaque]
 spec fn went(new: &ParseState, old: &ParseState) -> bool {
     &&& new.wf() && old.wf()
     &&& new.whole_str == old.whole_str
@@ -15,6 +16,7 @@ proof fn lemma_went_refl(a: &ParseState)
     requires a.wf(),
     ensures went(a, a),
 {
+    reveal(went);
     assert(a.src().subrange(a.idx@, a.idx@) =~= Seq::<char>::empty());
     assert(a.warnings@.is_prefix_of(a.warnings@));
 }
@@ -22,6 +24,7 @@ proof fn lemma_went_trans(a: &ParseState, b: &ParseState, c: &ParseState)
     requires went(b, a), went(c, b),
     ensures went(c, a),
 {
+    reveal(went);
     let s = a.src();
     assert(s.subrange(a.idx@, c.idx@) =~= s.subrange(a.idx@, b.idx@) + s.subrange(b.idx@, c.idx@));
     lemma_adv_split(a.line as int, a.utf16_col as int, s.subrange(a.idx@, b.idx@), s.subrange(b.idx@, c.idx@));
@@ -36,6 +39,7 @@ proof fn lemma_moved_went(a: &ParseState, b: &ParseState, j: int)
     requires a.wf(), b.moved_to(a, j),
     ensures went(b, a),
 {
+    reveal(went);
     assert(a.warnings@.is_prefix_of(b.warnings@));
 }
 /// ASSUMED: the expression parser moves forward or stays, only appends diagnostics
@@ -58,6 +62,7 @@ proof fn lemma_went_warn(a: &ParseState, b: &ParseState, c: &ParseState)
         b.warnings@.is_prefix_of(c.warnings@),
     ensures went(c, a),
 {
+    reveal(went);
     assert(a.warnings@.is_prefix_of(c.warnings@)) by {
         assert(a.warnings@ =~= b.warnings@.subrange(0, a.warnings@.len() as int));
         assert(b.warnings@ =~= c.warnings@.subrange(0, b.warnings@.len() as int));
@@ -74,6 +79,7 @@ proof fn lemma_consumed_range(o: &ParseState, n: &ParseState, r: Range<Position>
         r.start.utf16_col as int == adv_col(o.utf16_col as int, o.src().subrange(o.idx@, o.auto_idx())),
     ensures pos_le(r.start, r.end), pos_le(o.pos(), r.start), went(n, o),
 {
+    reveal(went);
     let s = o.src();
     let a = s.subrange(o.idx@, o.auto_idx());
     let b = s.subrange(o.auto_idx(), o.auto_idx() + k);
@@ -89,12 +95,39 @@ proof fn lemma_auto_idx(o: &ParseState)
 {
     if o.auto@ == 1 { lemma_skip_ws_js_ge(o.src(), o.idx@); }
 }
-/// #[derive(Clone)] of core::ops::Range over a Copy position: the clone is the value (A3)
-pub assume_specification<Idx: Clone> [<Range<Idx> as Clone>::clone] (r: &Range<Idx>) -> (o: Range<Idx>)
-    ensures (r.start == r.start) ==> true;
-/// for the Copy type Position: the clone of a range is the range
-#[verifier::external_body]
-proof fn axiom_range_clone(a: Range<Position>, b: Range<Position>)
-    ensures call_ensures(<Range<Position> as Clone>::clone, (&a,), b) ==> b == a,
+/// one more step, tracked against two origins at once; also spells out what `went` means for the new state
+proof fn lemma_chain(o1: &ParseState, o2: &ParseState, a: &ParseState, b: &ParseState)
+    requires went(a, o1), went(a, o2), went(b, a),
+    ensures
+        went(b, o1), went(b, o2),
+        b.wf(), b.whole_str == o1.whole_str, b.auto@ == o1.auto@, o1.warnings@.is_prefix_of(b.warnings@), o1.idx@ <= b.idx@, pos_le(o1.pos(), b.pos()),
+        o2.idx@ <= b.idx@, pos_le(o2.pos(), b.pos()), a.idx@ <= b.idx@, o1.warnings@.len() <= b.warnings@.len(), a.warnings@.len() <= b.warnings@.len(),
 {
+    lemma_went_trans(o1, a, b);
+    lemma_went_trans(o2, a, b);
+    lemma_went_facts(b, o1);
+    lemma_went_facts(b, o2);
+    lemma_went_facts(b, a);
+}
+/// `b` is `a` with diagnostics appended (or nothing changed)
+proof fn lemma_same_place(a: &ParseState, b: &ParseState)
+    requires a.wf(), b.wf(), b.whole_str == a.whole_str, b.idx@ == a.idx@, b.line == a.line, b.utf16_col == a.utf16_col, b.auto@ == a.auto@, a.warnings@.is_prefix_of(b.warnings@),
+    ensures went(b, a),
+{
+    lemma_went_refl(a);
+    lemma_went_warn(a, a, b);
+}
+/// #[derive(Clone)] of Range<Position> (Position is Copy): the clone is the value
+#[verifier::external_body]
+fn vx_clone_range(r: &Range<Position>) -> (o: Range<Position>)
+    ensures o == *r,
+{ r.clone() }
+/// what `went` says, for use where the definition is hidden
+proof fn lemma_went_facts(n: &ParseState, o: &ParseState)
+    requires went(n, o),
+    ensures
+        n.wf(), o.wf(), n.whole_str == o.whole_str, n.auto@ == o.auto@, o.warnings@.is_prefix_of(n.warnings@),
+        o.idx@ <= n.idx@ <= o.src().len(), pos_le(o.pos(), n.pos()), o.warnings@.len() <= n.warnings@.len(),
+{
+    reveal(went);
 }
